@@ -64,6 +64,18 @@ def probe_inputs(seed=0, n=40):
             s2 = V.spell(p, V.nd_variants(ver, m, rng, 1)[-1], "shuffle", rng)
             if s2 != s:
                 vec += [(ver, s), (ver, s2), (ver, s)]
+    # one-metric neighbours: the same vector with ONE optional metric changed, adjacent in both
+    # orders -- a cache whose key omits that metric hands the neighbour's result over
+    for ver in T.VERSIONS:
+        for k in T.OPTIONAL[ver]:
+            p, m, s = V.rand_vector(rng, ver, p_opt=0.3, p_nd=0.0, shuffle=0.0)
+            vals = [v for v in T.VALUES[ver][k] if v != T.ND[ver]]
+            m1 = dict(m)
+            m1[k] = vals[0]
+            m2 = dict(m)
+            m2[k] = vals[-1]
+            a, b = V.spell(p, m1), V.spell(p, m2)
+            vec += [(ver, a), (ver, b), (ver, a)]
     vec += [("2", vec[-1][1]), ("4", vec[0][1]), ("3", vec[0][1])]
     rh = []
     for ver, s in vec[::5]:
